@@ -4,7 +4,7 @@
   snd dir=out|in w0=<W0> m=<M> pol=stall|eager<k> grants=<g,…|-> writers=<code>:<size>+<size>…,<code>:…
       the REAL channel writes (one goroutine per writer, distinct extended codes); the scripted peer advertised
       window W0 and max packet M and grants window per `pol`.
-      trace (comma list): O=ok|err|rej  D<code>.<len>[!]  A<g>  S  E  W<code>=<n>.ok|eof
+      trace (comma list): O=ok|err|rej  D<code>.<len>[!]  A<g>  S  E  W<code>=<n>.ok|eof  F (CHANNEL_EOF)  Z<code>=eof
       accepted iff every data packet obeys  len ≥ 1, len ≤ M, len ≤ granted − used  (credit granted on the wire
       so far minus payload used), per-stream content/offset intact (no `!`), a single writer takes exactly
       min(M, remaining, window) (`nextPacket`), stalls happen only with the whole window used, the sender uses
@@ -135,12 +135,19 @@ def sndHandle (o : Op) (tr : String) : String :=
            then "ok" else "reject:invalid-max-packet-accepted")
         else if o1 != "O=ok" then "reject:open-failed" else
         let st0 : SndSt := ⟨m, w0, 0, writers, grants, writers.length == 1, false, false⟩
-        let body := rest.filter (fun e => !(e.startsWith "W") && e != "E")
+        let tail := rest.filter (fun e => e == "F" || e.startsWith "Z")
+        let body := rest.filter (fun e => !(e.startsWith "W") && e != "E" && e != "F" && !(e.startsWith "Z"))
         let results := rest.filter (·.startsWith "W")
         let sawE := rest.any (· == "E")
         match body.foldlM sndEvent st0 with
         | .error e => e
-        | .ok st => sndFinal st results sawE
+        | .ok st =>
+          -- eof=1: once every writer has returned, CloseWrite puts one CHANNEL_EOF on the wire and every later Write on
+          -- any stream of the channel returns (0, io.EOF) without touching the window
+          let wantTail := if o.get? "eof" == some "1" && !st.dead && st.writers.all (·.sizes.isEmpty)
+            then ["F", "Z0=eof", "Z1=eof"] else []
+          if tail != wantTail then s!"reject:closewrite want={",".intercalate wantTail}" else
+          sndFinal st results sawE
     | _, _ => "bad-op"
   | _, _, _, _, _, _ => "bad-op"
 
